@@ -44,6 +44,11 @@ def maxF : Func := mk (specVar pNumD) .number StdNum.maxImpl
 def notF : Func := mk (spec1 pBoolDM) .bool StdNum.notImpl
 def andF : Func := mk (spec2 pBoolDM pBoolDM) .bool StdNum.andImpl
 def orF : Func := mk (spec2 pBoolDM pBoolDM) .bool StdNum.orImpl
+def addF : Func := mk (spec2 pNumD pNumD) .number StdNum.addImpl
+def subF : Func := mk (spec2 pNumD pNumD) .number StdNum.subtractImpl
+def mulF : Func := mk (spec2 pNumD pNumD) .number StdNum.multiplyImpl
+def divF : Func := mk (spec2 pNumD pNumD) .number StdNum.divideImpl
+def modF : Func := mk (spec2 pNumD pNumD) .number StdNum.moduloImpl
 
 /-- (name used by the harness, Go variable, declared static type as the source prints it, model) -/
 def table : List (String × String × String × Func) :=
@@ -51,7 +56,10 @@ def table : List (String × String × String × Func) :=
    ("floor", "FloorFunc", "cty.Number", floorF), ("int", "IntFunc", "cty.Number", intF),
    ("abs", "AbsoluteFunc", "cty.Number", absF), ("neg", "NegateFunc", "cty.Number", negF),
    ("min", "MinFunc", "cty.Number", minF), ("max", "MaxFunc", "cty.Number", maxF),
-   ("not", "NotFunc", "cty.Bool", notF), ("and", "AndFunc", "cty.Bool", andF), ("or", "OrFunc", "cty.Bool", orF)]
+   ("not", "NotFunc", "cty.Bool", notF), ("and", "AndFunc", "cty.Bool", andF), ("or", "OrFunc", "cty.Bool", orF),
+   ("add", "AddFunc", "cty.Number", addF), ("sub", "SubtractFunc", "cty.Number", subF),
+   ("mul", "MultiplyFunc", "cty.Number", mulF), ("div", "DivideFunc", "cty.Number", divF),
+   ("mod", "ModuloFunc", "cty.Number", modF)]
 
 def byName (name : String) : Option Func :=
   (table.find? fun e => e.1 == name).map (·.2.2.2)
